@@ -70,6 +70,7 @@ func (f *fakeFamily) FamilyTime() int64                      { return f.tr.Start
 func (f *fakeFamily) AckSequence(_ int32, _ func(seq int64)) {}
 func (f *fakeFamily) Retain()                                {}
 func (f *fakeFamily) Release()                               {}
+func (f *fakeFamily) GetState() models.DataFamilyState       { return models.DataFamilyState{} }
 
 // ---------------------------------------------------------------------------------------------
 // storage.StateManager fake: live flag of the follower + the watchers the replicator registers.
